@@ -824,7 +824,7 @@ def helper_semantics(run, project, roles):
             marks.append(x)
             return x
         try:
-            got = Interp({"TPM2B_ENCRYPTED_PARAM": ENC, "tpm_dataclass": tpm_dataclass}).call(e, [cls])
+            got = Interp({"TPM2B_ENCRYPTED_PARAM": ENC, "tpm_dataclass": tpm_dataclass}, module_tree=pc.tree).call(e, [cls])
         except Raised as r:
             run.ob("F", False, f"encrypted() of {k}", f"encrypted() raises {r.cls} for the parameter area {k} (line {getattr(r.node, 'lineno', '?')})",
                    module=pc, node=r.node, func="TPMS_PARAMS.encrypted", construct="encrypted() failure")
